@@ -74,6 +74,9 @@ class RuleGen:
 
     def perturb(self, s: str) -> str:
         r = self.rng.random()
+        if self.rng.random() < 0.06:
+            # a name keeps the white space of its YAML spelling (a quoted scalar with a blank, a block scalar ending in a newline): "pop " is not "pop"
+            return self.rng.choice([s + " ", " " + s, s + "\n", "\t" + s, s + "  "])
         if self.rng.random() < 0.12 and s.lower() != s.upper():
             return s.upper() if self.rng.random() < 0.6 else s.capitalize() if s.capitalize() != s else s.upper()      # names are case-sensitive: MOV is not mov
         if r < 0.4:
